@@ -1,0 +1,62 @@
+// Copyright 2020-2025 Buf Technologies, Inc.
+//
+// Licensed under the Apache License, Version 2.0 (the "License");
+// you may not use this file except in compliance with the License.
+// You may obtain a copy of the License at
+//
+//      http://www.apache.org/licenses/LICENSE-2.0
+//
+// Unless required by applicable law or agreed to in writing, software
+// distributed under the License is distributed on an "AS IS" BASIS,
+// WITHOUT WARRANTIES OR CONDITIONS OF ANY KIND, either express or implied.
+// See the License for the specific language governing permissions and
+// limitations under the License.
+
+
+//go:build verif
+
+package registrylogin
+
+// Contracts for the gocv verifier (see /verif/DESIGN.md), author ca-r4g. Comment-only.
+// Model of the .netrc edits (ghost.rg_nr..., rg_wf...), ghost.rg_login...: /verif/specs/R4g.spec; netrc.PutMachines /
+// DeleteMachineForName: verified in private/pkg/netrc/zz_verif_contracts_r4g.go.
+//
+// C19: "The token is saved to your .netrc file. The [domain] argument will default to buf.build if not specified": the token
+// obtained for registry R is stored under the machine name R and under no other name; the stored password is exactly the
+// (trimmed) token that was checked against the registry; nothing is stored when that check failed, when the token is empty,
+// when the domain is invalid or when the flags contradict each other; the only entries removed are R (replaced) and go.R;
+// only the user's .netrc is written.
+// (`run`, the wrapper, uses a goroutine and select: outside the engine's fragment.)
+//@ func inner(ctx, container, flags) (err)
+//@   property C19
+//@   modifies heap, ghost.j_osStat, ghost.j_osWrite, ghost.fail, ghost.wfail, ghost.w_statFails, ghost.w_statErr, ghost.w_authSources, ghost.rg_cfgReads, ghost.rg_cfgReadErr, ghost.rg_nrRemoved, ghost.rg_nrAddN, ghost.rg_nrAddName, ghost.rg_nrAddLogin, ghost.rg_nrAddPass, ghost.rg_nrEdited, ghost.rg_nrRendered, ghost.rg_nrRenderAdds, ghost.rg_nrRenderRemoved, ghost.rg_nrText, ghost.rg_wfN, ghost.rg_wfPath, ghost.rg_wfData, ghost.rg_wfErr, ghost.rg_loginTokN, ghost.rg_loginToken, ghost.rg_loginVerifyN, ghost.rg_loginVerifyErr
+//@   ghost after "token = strings.TrimSpace(token)" rg_loginTokN := ghost.rg_loginTokN + 1
+//@   ghost after "token = strings.TrimSpace(token)" rg_loginToken := token
+//@   ghost after "resp, err := authnService.GetCurrentUser(" rg_loginVerifyN := ghost.rg_loginVerifyN + 1
+//@   ghost after "resp, err := authnService.GetCurrentUser(" rg_loginVerifyErr := err
+//@   ensures stores-at-most-one-entry: ghost.rg_nrAddN == old(ghost.rg_nrAddN) || ghost.rg_nrAddN == old(ghost.rg_nrAddN) + 1
+//@   ensures stored-under-this-registry-only: ghost.rg_nrAddN != old(ghost.rg_nrAddN) ==> ghost.rg_nrAddName[old(ghost.rg_nrAddN)] == rg_loginRemote(container)
+//@   ensures stores-the-token-that-was-checked: ghost.rg_nrAddN != old(ghost.rg_nrAddN) ==> ghost.rg_loginTokN == old(ghost.rg_loginTokN) + 1 && ghost.rg_nrAddPass[old(ghost.rg_nrAddN)] == ghost.rg_loginToken && ghost.rg_loginToken != ""
+//@   ensures stores-only-after-the-registry-accepted-the-token: ghost.rg_nrAddN != old(ghost.rg_nrAddN) ==> ghost.rg_loginVerifyN == old(ghost.rg_loginVerifyN) + 1 && ghost.rg_loginVerifyErr == nil
+//@   ensures removes-only-this-registrys-entries: forall s string :: s in ghost.rg_nrRemoved && !(s in old(ghost.rg_nrRemoved)) ==> s == rg_loginRemote(container) || s == "go." + rg_loginRemote(container)
+//@   ensures invalid-domain-rejected-nothing-stored: container.NumArgs() == 1 && second(netext.ValidateHostname(container.Arg(0))) != nil ==> err == second(netext.ValidateHostname(container.Arg(0))) && ghost.rg_nrAddN == old(ghost.rg_nrAddN) && ghost.rg_nrRemoved == old(ghost.rg_nrRemoved) && ghost.rg_wfN == old(ghost.rg_wfN) && ghost.rg_loginVerifyN == old(ghost.rg_loginVerifyN)
+//@   ensures contradicting-flags-rejected-nothing-stored: old(flags.TokenStdin) && old(flags.Prompt) ==> err != nil && ghost.rg_nrAddN == old(ghost.rg_nrAddN) && ghost.rg_nrRemoved == old(ghost.rg_nrRemoved) && ghost.rg_wfN == old(ghost.rg_wfN) && ghost.rg_loginVerifyN == old(ghost.rg_loginVerifyN)
+//@   ensures empty-token-rejected-never-sent: ghost.rg_loginTokN != old(ghost.rg_loginTokN) && ghost.rg_loginToken == "" ==> err != nil && ghost.rg_loginVerifyN == old(ghost.rg_loginVerifyN) && ghost.rg_nrAddN == old(ghost.rg_nrAddN) && ghost.rg_wfN == old(ghost.rg_wfN)
+//@   ensures rejected-token-is-an-error: ghost.rg_loginVerifyN != old(ghost.rg_loginVerifyN) && ghost.rg_loginVerifyErr != nil ==> err != nil && ghost.rg_nrAddN == old(ghost.rg_nrAddN) && ghost.rg_wfN == old(ghost.rg_wfN)
+//@   ensures written-only-to-the-users-netrc: ghost.rg_wfN != old(ghost.rg_wfN) ==> second(netrc.GetFilePath(container)) == nil && ghost.rg_wfPath == first(netrc.GetFilePath(container))
+//@   ensures success-means-stored: err == nil ==> ghost.rg_nrAddN == old(ghost.rg_nrAddN) + 1 && !(ghost.wfail && !old(ghost.wfail))
+//
+// The two ways to obtain a token interactively only OBTAIN it: they store nothing (no ghost.rg_nr... / rg_wf... in `modifies`:
+// the frame obligations check that no .netrc edit and no file write is reachable from them) and an error means no token.
+//@ func doPromptLogin(ctx, container, remote) (r, err)
+//@   property C19
+//@   modifies heap
+//@   ensures error-means-no-token: err != nil ==> r == ""
+//@   canary ensures err != nil
+//
+//@ func doBrowserLogin(ctx, container, remote) (r, err)
+//@   property C19
+//@   modifies heap, ghost.rg_cfgReads, ghost.rg_cfgReadErr
+//@   ensures error-means-no-token: err != nil ==> r == ""
+//@   ensures configuration-error-means-no-token: ghost.rg_cfgReadErr != nil && ghost.rg_cfgReads != old(ghost.rg_cfgReads) ==> err != nil && r == ""
+//@   canary ensures err != nil
